@@ -62,6 +62,12 @@ def programs(tier):
         for top in (("sel", srt, ("gt", meprogs.A, ("lit", "$k1"))), ("calc", srt, "d", ("add", meprogs.A, meprogs.B)), ("proj", srt, ("a", "b")),
                     ("slice", srt, 0, 2)):
             out += [("xfer", ("mat", top, "ms"), "it1"), ("xfer", top, "it1"), ("mat", top, "ms")]
+    # one cached payload read by two branches, one of them sorting it: evaluation of a branch must not disturb the other
+    for src in (("sel", X, ("gt", meprogs.A, ("lit", "$k1"))), ("xfer", S, "it1"), ("xfer", ("sort", S, ((meprogs.A, True), (meprogs.B, True), (meprogs.C, True))), "it1")):
+        m = ("mat", src, "mshare")
+        sorted_m = ("slice", ("sort", m, ((meprogs.B, False), (meprogs.A, False), (meprogs.C, False))), 0, 1)
+        out += [("chain", sorted_m, ("slice", m, 0, 1)), ("chain", ("slice", m, 0, 1), sorted_m),
+                ("xfer", ("chain", sorted_m, ("slice", m, 0, 1)), "it2"), ("chain", ("sort", m, ((meprogs.B, False),)), m)]
     selS = ("sel", S, ("gt", meprogs.A, ("lit", "$k1")))
     selX = ("sel", X, ("gt", meprogs.A, ("lit", "$k1")))
     for empty, live, other in ((("leaf", "0s"), selS, "it1"), (("leaf", "0i"), selX, "sq"), (("leaf", "0i"), selX, "it2")):
